@@ -12,8 +12,8 @@
 (*          "unknown")                                                    *)
 (* status : "running" | "done" | "error" | "short" | "unspec"             *)
 (*   short  = declared length exceeds the data present (STRICT: an error; *)
-(*            the as-built deviation D_ShortReadAccepted is recognised by *)
-(*            the trace specification, not here)                          *)
+(*            ReadFileAB models the as-built deviation                    *)
+(*            D_ShortReadAccepted)                                        *)
 (*   unspec = the file left the specified zone (DESIGN.md 5); records so  *)
 (*            far are still binding                                       *)
 (* lo..hi : allowed range for the line of a parse error (N10)             *)
@@ -29,12 +29,12 @@ R0 == [pos |-> 1, line |-> 0, prev |-> "START", decl |-> <<NoEnc, NoEnc, NoEnc>>
        recs |-> <<>>, status |-> "running", lo |-> 0, hi |-> 0]
 Stop(rs, status, lo, hi) == [rs EXCEPT !.status = status, !.lo = lo, !.hi = hi]
 
-RECURSIVE RStepAt(_,_,_,_)
-RStepAt(f, cmap, rs, pos) ==
+RECURSIVE RStepAt(_,_,_,_,_)
+RStepAt(f, cmap, rs, pos, ab) ==
   LET k == Find(f, <<10>>, pos) IN
   IF k = 0 THEN Stop(rs, "done", 0, 0)                    \* EOF; an unterminated tail is not a header line
   ELSE LET raw == SubSeq(f, pos, k) IN
-    IF IsBlank(raw) THEN RStepAt(f, cmap, rs, k + 1)      \* blank lines do not count (N10)
+    IF IsBlank(raw) THEN RStepAt(f, cmap, rs, k + 1, ab)      \* blank lines do not count (N10)
     ELSE
       LET line == rs.line
           fnl2 == IF rs.fnl # <<>> THEN rs.fnl ELSE IF EndsWith(raw, <<13,10>>) THEN <<13,10>> ELSE <<10>> IN
@@ -69,11 +69,12 @@ RStepAt(f, cmap, rs, pos) ==
               IF id \in MetaIds /\ Has(o, K_fmt) /\ Get(o, K_fmt) # V_json THEN Stop(rs, "error", line, line + 1)
               ELSE IF le = "bad" \/ ~indok THEN Stop(rs, "error", line, line + 1)
               ELSE IF codec.fam = "unknown" THEN Stop(rs, "error", line, line + 1)
-              ELSE IF len > avail THEN Stop(rs, "short", line, line + 1)
-              ELSE LET rawc == SubSeq(f, k + 1, k + len)
+              ELSE IF len > avail /\ ~(ab /\ avail > 0) THEN Stop(rs, "short", line, line + 1)
+              ELSE LET len2 == IF len > avail THEN avail ELSE len     \* only under D_ShortReadAccepted
+                       rawc == SubSeq(f, k + 1, k + len2)
                        r == Recover(rawc, codec, ind, le, codec.fam # "none" /\ id \notin DiffIds)
                        hi == line + (IF r.nlines > 1 THEN r.nlines ELSE 1)
-                       nxt == [rs EXCEPT !.pos = k + len + 1, !.line = line + 1 + r.nlines, !.prev = id, !.fnl = fnl2] IN
+                       nxt == [rs EXCEPT !.pos = k + len2 + 1, !.line = line + 1 + r.nlines, !.prev = id, !.fnl = fnl2] IN
                 IF r.unspec THEN Stop(rs, "unspec", line, hi)
                 ELSE IF ~r.ok THEN Stop(rs, "error", line, hi)
                 ELSE IF id \in MetaIds THEN
@@ -89,11 +90,15 @@ RStepAt(f, cmap, rs, pos) ==
                 ELSE
                   [nxt EXCEPT !.recs = Append(rs.recs, Rec(id, line, o, "bytes", <<>>, r.bytes, NullV))]
 
-RStep(f, cmap, rs) == RStepAt(f, cmap, rs, rs.pos)
+RStep(f, cmap, rs) == RStepAt(f, cmap, rs, rs.pos, FALSE)
 
-RECURSIVE RLoop(_,_,_)
-RLoop(f, cmap, rs) == IF rs.status # "running" THEN rs ELSE RLoop(f, cmap, RStep(f, cmap, rs))
-ReadFile(f, cmap) == RLoop(f, cmap, R0)
+RECURSIVE RLoop(_,_,_,_)
+RLoop(f, cmap, rs, ab) == IF rs.status # "running" THEN rs ELSE RLoop(f, cmap, RStepAt(f, cmap, rs, rs.pos, ab), ab)
+ReadFile(f, cmap) == RLoop(f, cmap, R0, FALSE)
+(* As-built deviation D_ShortReadAccepted (open finding F9): when the declared
+   length exceeds the data present, the bytes that ARE present are taken as
+   the content (and accepted if they happen to end in the section newline). *)
+ReadFileAB(f, cmap) == RLoop(f, cmap, R0, TRUE)
 
 (* number of physical lines (LF terminated or trailing) - bound for error lines, C08 *)
 PhysLines(f) == Count(f, <<10>>) + (IF f # <<>> /\ f[Len(f)] # 10 THEN 1 ELSE 0)
